@@ -363,6 +363,11 @@ func (fgen *funcGen) irInvokeTerm(new ir.Terminator, old *ast.InvokeTerm) error 
 	}
 	// The invokee type is always pointer to function type.
 	ptrToSig := types.NewPointer(sig)
+	// (in the address space of the call: a callee that is a constant expression
+	// is checked against this type).
+	if n, ok := old.AddrSpace(); ok {
+		ptrToSig.AddrSpace = irAddrSpace(n)
+	}
 	invokee, err := fgen.irValue(ptrToSig, old.Invokee())
 	if err != nil {
 		return errors.WithStack(err)
@@ -464,6 +469,11 @@ func (fgen *funcGen) irCallBrTerm(new ir.Terminator, old *ast.CallBrTerm) error 
 	}
 	// The callee type is always pointer to function type.
 	ptrToSig := types.NewPointer(sig)
+	// (in the address space of the call: a callee that is a constant expression
+	// is checked against this type).
+	if n, ok := old.AddrSpace(); ok {
+		ptrToSig.AddrSpace = irAddrSpace(n)
+	}
 	callee, err := fgen.irValue(ptrToSig, old.Callee())
 	if err != nil {
 		return errors.WithStack(err)
